@@ -215,7 +215,8 @@ def run_invalid_kinds(ctx):
         return Exception("x")
 
     bad = {"int": 1, "str": "oops", "non-exception class": _NotAnException, "partial": functools.partial(f),
-           "callable instance": _CallableInstance(), "builtin": len, "list": [ValueError]}
+           "callable instance": _CallableInstance(), "builtin": len, "list": [ValueError],
+           "zero": 0, "False": False, "empty str": "", "empty list": [], "empty tuple": (), "empty dict": {}}
     good = {"exception class": ValueError, "base exception class": KeyboardInterrupt, "instance": ValueError("x"),
             "function": f, "lambda": (lambda: ValueError("x")), "method": _Holder().make}
     for dname, deco in (("require", icontract.require), ("ensure", icontract.ensure), ("invariant", icontract.invariant)):
